@@ -470,19 +470,24 @@ example :
       [.str t_S [32], .str t_HASH [35, 97, 97, 98, 98, 99, 99], .str t_CHAR [59]]))
       = .ok [64, 120, 32, 35, 97, 97, 98, 98, 99, 99, 59] := rfl
 
-/-- **(repair ec62b69)** page selector `a/*c*/:first`: name, comment and pseudo-page are written without white space
-between them, under the default record and under the minified layout strings (before the repair: `a /*c*/ :first`,
-which reparses as a page named `a` plus a stray token) -/
-theorem page_name_comment_pseudo_unspaced :
-    value (runCalls Prefs.default 1 (pageSelCalls
-      [(t_IDENT, .str [97]), (t_COMMENT, .obj [47, 42, 99, 42, 47]), ([112], .str [58, 102])]))
-      = [97, 47, 42, 99, 42, 47, 58, 102] ∧
+/-- **(repair ec62b69)** page selector: a page name `a`, a comment `c` and a pseudo-page `ps` are written with
+NOTHING between them, under EVERY record that keeps comments and has a white-space spacer (`Plain`: a word — not a
+punctuation string, no unescaped trailing blank; `ty3` any generic type other than IDENT, the parser uses `pseudo`).
+Before the repair the text was `a /*c*/ :first`, which reparses as a page named `a` plus stray tokens. -/
+theorem page_name_comment_pseudo_unspaced (p : Prefs) (hk : p.keepComments = true) (hs : allWs p.spacer = true)
+    (il : Nat) (a c ps ty3 : CssVerif.Proto.Cps) (ha : Plain a = true) (hc : Plain c = true) (hps : Plain ps = true)
+    (ht3 : GenericTy ty3 = true) (hni : (ty3 == t_IDENT) = false) :
+    value (runCalls p il (pageSelCalls [(t_IDENT, .str a), (t_COMMENT, .obj c), (ty3, .str ps)])) = a ++ c ++ ps :=
+  pageSel_name_comment_pseudo p hk hs il a c ps ty3 ha hc hps ht3 hni
+
+/-- the hypotheses are satisfiable: `a`, `/*c*/`, `:f` with type `p`; and a comment BEFORE the name keeps its space
+(`named` is still false) -/
+example : Plain [97] = true ∧ Plain [47, 42, 99, 42, 47] = true ∧ Plain [58, 102] = true ∧ GenericTy [112] = true ∧
     value (runCalls pTight 1 (pageSelCalls
       [(t_IDENT, .str [97]), (t_COMMENT, .obj [47, 42, 99, 42, 47]), ([112], .str [58, 102])]))
       = [97, 47, 42, 99, 42, 47, 58, 102] ∧
-    -- a comment BEFORE the name keeps its space (`named` is still false)
     value (runCalls Prefs.default 1 (pageSelCalls
       [(t_COMMENT, .obj [47, 42, 99, 42, 47]), (t_IDENT, .str [97]), ([112], .str [58, 102])]))
-      = [47, 42, 99, 42, 47, 32, 97, 58, 102] := ⟨rfl, rfl, rfl⟩
+      = [47, 42, 99, 42, 47, 32, 97, 58, 102] := ⟨by decide, by decide, by decide, by decide, rfl, rfl⟩
 
 end CssVerif.C06
